@@ -842,6 +842,11 @@ func genTransport(t *rapid.T, binding string) spsim.Transport {
 	if binding == "redirect" && rapid.Bool().Draw(t, "explicitenc") {
 		tr.Encoding = spsim.EncodingDeflate
 	}
+	if binding == "redirect" && rapid.IntRange(0, 5).Draw(t, "method") == 0 {
+		// a user agent (a link checker, a prefetcher) that asks for the headers only: whatever the IdP makes of that, the
+		// request has one outcome
+		tr.Method = "HEAD"
+	}
 	return tr
 }
 
